@@ -30,10 +30,10 @@ func (r Region) contains(ref, idx, sub string) string {
 	if r.IdxHi == "" {
 		cs = append(cs, eq(idx, r.IdxLo))
 	} else {
-		cs = append(cs, "(bvult (bvsub "+idx+" "+r.IdxLo+") (bvsub "+r.IdxHi+" "+r.IdxLo+"))")
+		cs = append(cs, inRange(idx, r.IdxLo, r.IdxHi))
 	}
 	if r.SubHi != "" {
-		cs = append(cs, "(bvult (bvsub "+sub+" "+r.SubLo+") (bvsub "+r.SubHi+" "+r.SubLo+"))")
+		cs = append(cs, inRange(sub, r.SubLo, r.SubHi))
 	}
 	return and(cs...)
 }
@@ -111,7 +111,7 @@ func (f *FnEnc) havocRegions(st *State, rs []Region) {
 			var nmid string
 			if r.IdxHi != "" {
 				fm := f.c.fresh("hvmid", midSort(so))
-				nmid = "(lambda ((k!l (_ BitVec 64))) (ite (bvult (bvsub k!l " + r.IdxLo + ") (bvsub " + r.IdxHi + " " + r.IdxLo + ")) (select " + fm + " k!l) (select " + mid + " k!l)))"
+				nmid = f.c.lambda(innerSort(so), "(ite "+inRange("k!l", r.IdxLo, r.IdxHi)+" (select "+fm+" k!l) (select "+mid+" k!l))")
 			} else {
 				inner := f.c.define("inner", innerSort(so), sel(mid, r.IdxLo))
 				var ninner string
@@ -127,7 +127,7 @@ func (f *FnEnc) havocRegions(st *State, rs []Region) {
 					}
 				default:
 					fi := f.c.fresh("hvinner", innerSort(so))
-					ninner = "(lambda ((k!l (_ BitVec 64))) (ite (bvult (bvsub k!l " + r.SubLo + ") (bvsub " + r.SubHi + " " + r.SubLo + ")) (select " + fi + " k!l) (select " + inner + " k!l)))"
+					ninner = f.c.lambda(so, "(ite "+inRange("k!l", r.SubLo, r.SubHi)+" (select "+fi+" k!l) (select "+inner+" k!l))")
 				}
 				nmid = sto(mid, r.IdxLo, ninner)
 			}
@@ -302,8 +302,29 @@ func (f *FnEnc) checkInvariant(fr *Frame, li *loopInfo, ls *LoopSpec, st *State,
 			suffix = fmt.Sprintf("#%d", n)
 		}
 		formula := f.evalClause(se, inv)
+		var watch []WatchTerm
+		for name, v := range f.params {
+			watch = append(watch, WatchTerm{Text: name, Terms: v.L})
+		}
+		for a := range li.modLocal {
+			if cur, ok := st.locals[a]; ok {
+				watch = append(watch, WatchTerm{Text: "local " + a.Comment, Terms: cur})
+			}
+		}
+		for _, w := range f.eng.watch {
+			func() {
+				defer func() { recover() }()
+				ex, err := parseExpr(w)
+				if err != nil {
+					return
+				}
+				se2 := f.specEnvFor(fr, st, cond)
+				v := se2.eval(ex, nil)
+				watch = append(watch, WatchTerm{Text: w, Terms: v.L})
+			}()
+		}
 		f.c.oblige(Item{Guard: cond, Formula: formula, Name: f.eng.fnKey(fr.fn) + "/invariant-" + phase + ":" + fmt.Sprintf("loop%d:%s%s", li.ord, label, suffix), Class: "invariant",
-			Pos: token.Position{Filename: inv.File, Line: inv.Line}, Text: inv.Text})
+			Pos: token.Position{Filename: inv.File, Line: inv.Line}, Text: inv.Text, Watch: watch})
 	}
 }
 
